@@ -8,6 +8,7 @@
 // Besides the explicit oracles, ASan/UBSan watch every access, H3 poisons parked pool blocks, and the
 // heap balance of every case is checked (nothing allocated inside a case may survive it).
 #define VERIF_MAIN
+#define LOG_MODULE_ID "verif.c08"
 #include "../common/verif.h"
 #include <utility>
 #include <memory>
@@ -19,12 +20,34 @@
 #include <tbox/base/lifetime_tag.hpp>
 #include <tbox/util/fd.h>
 
-#ifdef VERIF_HAVE_SANITIZER
+// The per-case heap balance needs ASan's allocator statistics.  The detection is done here (not through a macro of
+// the shared header, whose name changed once and silently turned this oracle into a no-op), a build without ASan is
+// refused, and heap_selftest() proves at run time that the counter really moves.
+#if defined(__has_feature)
+#  if __has_feature(address_sanitizer)
+#    define C08_HAVE_ASAN 1
+#  endif
+#endif
+#if defined(__SANITIZE_ADDRESS__)
+#  define C08_HAVE_ASAN 1
+#endif
+#ifndef C08_HAVE_ASAN
+#  error "C08/handles.cpp must be built with AddressSanitizer (variant asan): the heap-balance oracle depends on it"
+#endif
 #include <sanitizer/allocator_interface.h>
 static size_t heap_now() { return __sanitizer_get_current_allocated_bytes(); }
-#else
-static size_t heap_now() { return 0; }
-#endif
+// "" if the allocator statistics react to an allocation and to its release, else a diagnosis
+static std::string heap_selftest() {
+  for (int attempt = 0; attempt < 3; ++attempt) {   // a foreign thread may allocate in between: up to three tries
+    size_t a = heap_now();
+    void *volatile p = malloc(4096);
+    size_t b = heap_now();
+    free(p);
+    size_t c = heap_now();
+    if (b >= a + 4096 && c == a) return "";
+  }
+  return "harness self-test: the allocator statistics do not follow malloc/free; the heap-balance oracle would be blind";
+}
 
 using namespace verif;
 
@@ -43,6 +66,8 @@ std::string fmt(const char *f, ...) {
 // therefore reported only if it shows up in three consecutive executions of the same case.
 template <typename Body>
 std::string with_leak_check(const char *what, Body body) {
+  static const std::string selftest = heap_selftest();
+  if (!selftest.empty()) return selftest;
   long long delta = 0;
   for (int attempt = 0; attempt < 3; ++attempt) {
     size_t h0 = heap_now();
